@@ -251,6 +251,10 @@ DERIVE_PROBES = {
     "require_static_on_branded_type": ("use gc_arena::{Collect, Gc};\n#[derive(Collect)]\n#[collect(require_static)]\npub struct A<'gc> { x: Gc<'gc, u32> }\npub fn use_it<'gc, T: Collect<'gc>>() {}\npub fn f<'gc>() { use_it::<'gc, A<'gc>>() }\n", False),
     "require_static_on_static_type_twin": ("use gc_arena::Collect;\n#[derive(Collect)]\n#[collect(require_static)]\npub struct A { x: std::rc::Rc<u32> }\npub fn use_it<'gc, T: Collect<'gc>>() {}\npub fn f<'gc>() { use_it::<'gc, A>() }\n", True),
     "require_static_field_on_branded_type": ("use gc_arena::{Collect, Gc};\n#[derive(Collect)]\n#[collect(no_drop)]\npub struct A<'gc> { #[collect(require_static)] x: Gc<'gc, u32> }\npub fn use_it<'gc, T: Collect<'gc>>() {}\npub fn f<'gc>() { use_it::<'gc, A<'gc>>() }\n", False),
+    # the 'static demand on a require_static field does not depend on how the rest of the where clause is written
+    "require_static_field_on_branded_type_with_bound": ("use gc_arena::{Collect, Gc};\n#[derive(Collect)]\n#[collect(no_drop, bound = \"\")]\npub struct A<'gc> { #[collect(require_static)] x: Gc<'gc, u32> }\npub fn use_it<'gc, T: Collect<'gc>>() {}\npub fn f<'gc>() { use_it::<'gc, A<'gc>>() }\n", False),
+    "require_static_field_with_generic_bound": ("use gc_arena::{Collect, Gc};\n#[derive(Collect)]\n#[collect(no_drop, bound = \"where T: Collect<'gc>\")]\npub struct A<'gc, T> { t: T, #[collect(require_static)] x: std::cell::RefCell<Option<Gc<'gc, u32>>> }\npub fn use_it<'gc, T: Collect<'gc>>() {}\npub fn f<'gc>() { use_it::<'gc, A<'gc, u32>>() }\n", False),
+    "require_static_field_with_bound_static_twin": ("use gc_arena::Collect;\n#[derive(Collect)]\n#[collect(no_drop, bound = \"\")]\npub struct A { #[collect(require_static)] x: std::rc::Rc<u32> }\npub fn use_it<'gc, T: Collect<'gc>>() {}\npub fn f<'gc>() { use_it::<'gc, A>() }\n", True),
     "require_static_on_variant": ("use gc_arena::Collect;\n#[derive(Collect)]\n#[collect(no_drop)]\npub enum E { #[collect(require_static)] V(u32), W }\n", False),
     "require_static_on_variant_field_twin": ("use gc_arena::Collect;\n#[derive(Collect)]\n#[collect(no_drop)]\npub enum E { V(#[collect(require_static)] u32), W }\n", True),
     "field_not_collect": ("use gc_arena::Collect;\npub struct NotC;\n#[derive(Collect)]\n#[collect(no_drop)]\npub struct A { x: NotC }\n", False),
@@ -259,6 +263,33 @@ DERIVE_PROBES = {
     "two_lifetimes_with_gc_lifetime_twin": ("use gc_arena::{Collect, Gc};\nuse std::marker::PhantomData;\n#[derive(Collect)]\n#[collect(no_drop, gc_lifetime = 'gc)]\npub struct A<'gc, 'a> { x: Gc<'gc, u32>, y: PhantomData<&'a ()> }\n", True),
     "unknown_field_attribute": ("use gc_arena::Collect;\n#[derive(Collect)]\n#[collect(no_drop)]\npub struct A { #[collect(no_drop)] x: u32 }\n", False),
 }
+
+def _neg_derive_matrix():
+    """A require_static field of a type that can hold arena pointers must make the derived impl unusable, whatever the
+    struct style and however the where clause is assembled (no bound, a type parameter with the generated bound, an
+    explicit bound, an explicit EMPTY bound).  The negative half of the derive shape space, as compile probes."""
+    out = {}
+    # (the last leaf is the positive twin: the same skeleton with a 'static field type must be accepted)
+    leaves = {"gc": "Gc<'gc, u32>", "weak": "GcWeak<'gc, u32>", "vec": "Vec<Gc<'gc, u32>>", "cell": "std::cell::Cell<Option<Gc<'gc, u32>>>",
+              "static_twin": "std::rc::Rc<u32>"}
+    gens = {"none": ("", "<'gc>", "A<'gc>", None), "param": ("", "<'gc, T>", "A<'gc, u32>", "T"),
+            "bound": (", bound = \"where T: Collect<'gc>\"", "<'gc, T>", "A<'gc, u32>", "T"),
+            "empty_bound": (", bound = \"\"", "<'gc>", "A<'gc>", None)}
+    for gname, (attr, params, inst, tparam) in gens.items():
+        for lname, ty in leaves.items():
+            for style in ("named", "tuple"):
+                fields = ([("t", tparam)] if tparam else []) + [("p", "Gc<'gc, u32>"), ("x", ty)]
+                if style == "named":
+                    body = "{ " + ", ".join((f"#[collect(require_static)] {n}: {t}" if n == "x" else f"{n}: {t}") for n, t in fields) + " }"
+                else:
+                    body = "(" + ", ".join((f"#[collect(require_static)] {t}" if n == "x" else t) for n, t in fields) + ");"
+                src = ("use gc_arena::{Collect, Gc, GcWeak};\n#[derive(Collect)]\n#[collect(no_drop" + attr + ")]\npub struct A" + params + " " + body
+                       + "\npub fn use_it<'gc, T: Collect<'gc>>() {}\npub fn f<'gc>() { use_it::<'gc, " + inst + ">() }\n")
+                out[f"neg_require_static_{gname}_{lname}_{style}"] = (src, lname == "static_twin")
+    return out
+
+
+DERIVE_PROBES.update(_neg_derive_matrix())
 
 ASSERT = "use gc_arena::{Collect, Gc, GcWeak, Static};\npub fn is_collect<'gc, T: Collect<'gc> + ?Sized>() {}\n"
 STATIC_IMPL_PROBES = {
@@ -361,6 +392,10 @@ def check_shapes(prop, tier):
         if run["crashed"]:
             viols.append({"rule": "crash", "index": run["records"] + 1, "features": run["features"], "obs": run["obs"]})
     for name, pr in res["probes"][prop].items():
+        if pr["expected_accepted"] and not pr["accepted"]:
+            # a positive twin validates the probe skeleton: its rejection says the probe is wrong (or the crate's
+            # surface changed), not that the property is broken
+            raise ToolError(f"positive twin {name} was rejected: {pr['diag'][-300:]}")
         if pr["accepted"] != pr["expected_accepted"]:
             viols.append({"rule": "probe:" + name, "index": 0, "diag": pr["diag"]})
     os.makedirs(os.path.join(WORK, "replays"), exist_ok=True)
@@ -438,6 +473,9 @@ WRITE_FACT_PROBES = {
     "UnlockNoWrite2": WC_HEAD + f"pub fn f<'a, 'gc>(l: &'a {PT}) -> &'a RefCell<Option<Gc<'gc, u32>>> {{ l.as_ref_cell() }}\n",
     "CellHoldsGc": "use gc_arena::{Collect, Gc};\npub fn is_collect<'gc, T: Collect<'gc>>() {}\npub fn f<'gc>() { is_collect::<'gc, std::cell::Cell<Option<Gc<'gc, u32>>>>() }\n",
     "RefCellHoldsGc": "use gc_arena::{Collect, Gc};\npub fn is_collect<'gc, T: Collect<'gc>>() {}\npub fn f<'gc>() { is_collect::<'gc, std::cell::RefCell<Option<Gc<'gc, u32>>>>() }\n",
+    # ... nor through a derived type that skips the field (require_static), however its where clause is written
+    "RefCellHoldsGcDerived": "use gc_arena::{Collect, Gc};\n#[derive(Collect)]\n#[collect(no_drop)]\npub struct H<'gc> { #[collect(require_static)] slot: std::cell::RefCell<Option<Gc<'gc, u32>>> }\npub fn is_collect<'gc, T: Collect<'gc>>() {}\npub fn f<'gc>() { is_collect::<'gc, H<'gc>>() }\n",
+    "RefCellHoldsGcDerivedBound": "use gc_arena::{Collect, Gc};\n#[derive(Collect)]\n#[collect(no_drop, bound = \"\")]\npub struct H<'gc> { #[collect(require_static)] slot: std::cell::RefCell<Option<Gc<'gc, u32>>> }\npub fn is_collect<'gc, T: Collect<'gc>>() {}\npub fn f<'gc>() { is_collect::<'gc, H<'gc>>() }\n",
     "AsWriteOption": WC_HEAD + f"pub fn f<'a, 'gc>(w: &'a Write<Option<{PT}>>) -> Option<&'a Write<{PT}>> {{ w.as_write() }}\n",
     # positive twins of the projection machinery (must stay usable)
     "FieldDirect": WC_HEAD + f"pub struct S<'gc> {{ pub f: {PT} }}\npub fn f<'a, 'gc>(w: &'a Write<S<'gc>>) -> &'a Write<{PT}> {{ field!(w, S, f) }}\n",
@@ -451,6 +489,8 @@ FORBIDDEN_FACTS = {"FromStaticAny": "Write references cannot be forged for data 
                    "UnlockNoWrite": "unlocking needs a Write reference (unlock_unchecked must be unsafe)",
                    "UnlockNoWrite2": "unlocking needs a Write reference (as_ref_cell must be unsafe)",
                    "CellHoldsGc": "plain Cell cannot hold pointers", "RefCellHoldsGc": "plain RefCell cannot hold pointers",
+                   "RefCellHoldsGcDerived": "plain RefCell cannot hold pointers (as a require_static field of a derived type)",
+                   "RefCellHoldsGcDerivedBound": "plain RefCell cannot hold pointers (as a require_static field of a derived type with an explicit bound)",
                    "IndexUserImpl_array": "Write references cannot be forged: indexing a Write<[T; N]> with a client-written Index impl",
                    "IndexUserImpl_slice": "Write references cannot be forged: indexing a Write<[T]> with a client-written Index impl",
                    "IndexUserImpl_vec": "Write references cannot be forged: indexing a Write<Vec<T>> with a client-written Index impl"}
@@ -728,6 +768,8 @@ ESCAPES = {
     "try_map_root_err_with_gc": "pub fn f(a: A) { let _r = a.try_map_root::<Rootable![R<'_>], _>(|mc, r| Err::<R<'_>, _>(r.p)); }",
     "mutate_root_returns_root": "pub fn f(a: &mut A) { let _r = a.mutate_root(|mc, root| root); }",
     "root_with_ref_field": "#[derive(Collect)]\n#[collect(no_drop)]\npub struct R2<'gc> { pub r: &'gc i32, pub p: Gc<'gc, i32> }\npub fn f() { let mut a = Arena::<Rootable![R2<'_>]>::new(|mc| { let p = Gc::new(mc, 1); R2 { r: Gc::as_ref(p), p } }); a.finish_cycle(); }",
+    "root_with_require_static_ref_field": "#[derive(Collect)]\n#[collect(no_drop)]\npub struct R3<'gc> { #[collect(require_static)] pub stash: std::cell::Cell<Option<&'gc i32>>, pub p: Gc<'gc, i32> }\npub fn f() { let mut a = Arena::<Rootable![R3<'_>]>::new(|mc| R3 { stash: std::cell::Cell::new(None), p: Gc::new(mc, 1) }); a.mutate(|_, r| r.stash.set(Some(Gc::as_ref(r.p)))); a.finish_cycle(); }",
+    "root_with_require_static_ref_field_and_bound": "#[derive(Collect)]\n#[collect(no_drop, bound = \"\")]\npub struct R3<'gc> { #[collect(require_static)] pub stash: std::cell::Cell<Option<&'gc i32>>, pub p: Gc<'gc, i32> }\npub fn f() { let mut a = Arena::<Rootable![R3<'_>]>::new(|mc| R3 { stash: std::cell::Cell::new(None), p: Gc::new(mc, 1) }); a.mutate(|_, r| r.stash.set(Some(Gc::as_ref(r.p)))); a.finish_cycle(); }",
     "root_with_static_wrapped_gc": "pub fn f() { let mut a = Arena::<Rootable![Static<Gc<'_, i32>>]>::new(|mc| Static(Gc::new(mc, 1))); a.finish_cycle(); }",
     "root_with_leaked_static_ref": "pub fn f() { let mut a = Arena::<Rootable![&'static Gc<'_, i32>]>::new(|mc| Box::leak(Box::new(Gc::new(mc, 4)))); a.finish_cycle(); }",
     "dynamic_root_fetch_unbranded": "pub fn f(a: &A, h: &DynamicRoot<Static<i32>>) { let _g = a.mutate(|mc, root| root.set.fetch(h)); }",
@@ -743,6 +785,7 @@ ESCAPE_TWINS = {
     "two_arenas_side_by_side": "pub fn f(a: &A, b: &A) -> i32 { a.mutate(|mc1, r1| b.mutate(|mc2, r2| { r2.slot.set(mc2, Some(r2.p)); r1.slot.set(mc1, Some(r1.p)); *r1.p + *r2.p })) }",
     "finalize_returns_data": "pub fn f(a: &mut A) -> Option<bool> { a.finish_marking().map(|m| m.finalize(|fc, root| Gc::is_dead(fc, root.p))) }",
     "uncollectable_root_without_collection": "pub fn f() -> i32 { let a = Arena::<Rootable![Static<Gc<'_, i32>>]>::new(|mc| Static(Gc::new(mc, 1))); a.mutate(|_, r| *r.0) }",
+    "root_with_require_static_static_ref_and_bound": "#[derive(Collect)]\n#[collect(no_drop, bound = \"\")]\npub struct R3<'gc> { #[collect(require_static)] pub stash: std::cell::Cell<Option<&'static i32>>, pub p: Gc<'gc, i32> }\npub fn f() { let mut a = Arena::<Rootable![R3<'_>]>::new(|mc| R3 { stash: std::cell::Cell::new(None), p: Gc::new(mc, 1) }); a.mutate(|_, r| r.stash.set(Some(&7))); a.finish_cycle(); }",
     "map_root_same_arena": "pub fn f(a: A) -> A { a.map_root::<Rootable![R<'_>]>(|mc, mut r| { r.p = Gc::new(mc, 2); r }) }",
 }
 
